@@ -13,6 +13,8 @@ package main
 //   send  <key> <iv> <mode> <ver> <setting> <seq> <msgno> <chid> <chtype> <expire> <topic> <payload> <tamper>
 //                                                client seals with the real API, the packet is perturbed, encoded with the real
 //                                                codec and fed to the real gateway Adapter.Decode on a session in <mode>
+//   recv  <key> <iv> <mode> <setting> <mid> <mseq> <msgno> <ts> <from> <chid> <chtype> <payload>
+//                                                real gateway Adapter.Encode seals a RECV on a session in <mode>; decoded with the real codec, opened by the client API
 //   neg   <clientPriv> <variant>                 real NegotiateServerSession / DeriveClientSession with real X25519 both sides
 //
 // The generator uses only Go's standard library (crypto/aes, crypto/cipher,
@@ -164,7 +166,9 @@ func genC25(g *Gen) {
 		if i%200 == 199 {
 			g.Case()
 		}
-		switch g.R.Pick(4, 14, 14, 18, 14, 30, 6) {
+		switch g.R.Pick(4, 14, 14, 18, 14, 30, 6, 8) {
+		case 7:
+			genC25Recv(g)
 		case 0:
 			g.Op("pad", "%d %d", c25PayloadLen(g, 1<<20), []int{16, 16, 16, 8, 32, 1}[g.R.Intn(6)])
 		case 1:
@@ -312,6 +316,19 @@ func genC25Dec(g *Gen, large int) {
 		g.Count("dec:b64-trailing")
 	}
 	g.Op("dec", "%s %s %s", Hex(key), Hex(iv), Hex(text))
+}
+
+func genC25Recv(g *Gen) {
+	key, iv := c25GoodKey(g, "key"), c25GoodKey(g, "iv")
+	mode := []string{"c", "c", "k", "n"}[g.R.Intn(4)]
+	setting := []int{0, 0, 0, 16}[g.R.Intn(4)]
+	mid := int64(g.R.BoundaryU64())
+	ts := int32(g.R.BoundaryU64())
+	g.Count("recv:mode-" + mode)
+	if mid < 0 || ts < 0 {
+		g.Count("recv:negative-decimal")
+	}
+	g.Op("recv", "%s %s %s %d %d %d %s %d %s %s %d %s", Hex(key), Hex(iv), mode, setting, mid, uint32(g.R.BoundaryU64()), Hex(c25Text(g)), ts, Hex(c25Text(g)), Hex(c25Text(g)), g.R.Intn(256), Hex(g.R.Bytes(c25PayloadLen(g, 600))))
 }
 
 var c25Tampers = []string{"payload", "msgkey", "msgno", "chid", "seq", "chtype"}
@@ -534,6 +551,8 @@ func (c25Runner) Step(op string) string {
 		return out + suffix
 	case "neg":
 		return c25Neg(f)
+	case "recv":
+		return c25Recv(f)
 	}
 	return "bad-op"
 }
@@ -740,4 +759,70 @@ func c25Neg(f []string) string {
 	opened, e2 := gwenc.DecryptPayload(sealed, keys)
 	talk := e1 == nil && e2 == nil && bytes.Equal(opened, msg)
 	return fmt.Sprintf("ok ckey=%s dhok=%s secret=%s skey=%s siv=%s ckey2=%s civ=%s talk=%s", Hex([]byte(clientKey)), dhok, Hex(secret), Hex(keys.AESKey), Hex(keys.AESIV), Hex(ck.AESKey), Hex(ck.AESIV), c25B(talk))
+}
+
+func c25Recv(f []string) string {
+	if len(f) != 13 {
+		return "bad-op"
+	}
+	keys := penc.SessionKeys{AESKey: UnHex(f[1]), AESIV: UnHex(f[2])}
+	mode := f[3]
+	setting, ok1 := c25U(f[4], 8)
+	mid, err := strconv.ParseInt(f[5], 10, 64)
+	mseq, ok2 := c25U(f[6], 32)
+	ts, err2 := strconv.ParseInt(f[8], 10, 32)
+	chtype, ok3 := c25U(f[11], 8)
+	if !ok1 || !ok2 || !ok3 || err != nil || err2 != nil || (mode != "c" && mode != "k" && mode != "n") || (setting != 0 && setting != 16) || len(keys.AESKey) < 16 || len(keys.AESIV) < 16 {
+		return "bad-op"
+	}
+	payload := UnHex(f[12])
+	keep := append([]byte(nil), payload...)
+	pkt := &frame.RecvPacket{Setting: frame.Setting(setting), MessageID: mid, MessageSeq: mseq, ClientMsgNo: string(UnHex(f[7])), Timestamp: int32(ts),
+		FromUID: string(UnHex(f[9])), ChannelID: string(UnHex(f[10])), ChannelType: uint8(chtype), Payload: payload}
+	sess := session.New(session.Config{ID: 1, Listener: "verif", RemoteAddr: "r", LocalAddr: "l"})
+	var tr *penc.VerifTrace
+	switch mode {
+	case "c":
+		sc, t, err := penc.VerifTracedCrypto(keys)
+		if err != nil {
+			return "err:setup"
+		}
+		tr = t
+		sess.SetValue(gatewaytypes.SessionValueEncryptionEnabled, true)
+		sess.SetValue(gatewaytypes.SessionValueCrypto, sc)
+	case "k":
+		sess.SetValue(gatewaytypes.SessionValueEncryptionEnabled, true)
+		sess.SetValue(gatewaytypes.SessionValueAESKey, string(keys.AESKey))
+		sess.SetValue(gatewaytypes.SessionValueAESIV, keys.AESIV)
+	}
+	wire, err := gwadapter.New().Encode(sess, pkt, session.OutboundMeta{})
+	if err != nil {
+		return c25Err(err)
+	}
+	if !bytes.Equal(pkt.Payload, keep) || pkt.MsgKey != "" {
+		return "err:input-packet-mutated"
+	}
+	fr, n, err := codec.New().DecodeFrame(wire, frame.LegacyMessageSeqVersion)
+	if err != nil || n != len(wire) {
+		return "err:client-decode"
+	}
+	got, ok := fr.(*frame.RecvPacket)
+	if !ok {
+		return "err:not-a-recv"
+	}
+	sealed := mode != "n" && setting&16 == 0
+	pl := Hex(got.Payload)
+	if sealed {
+		plain, err := gwenc.DecryptPayload(got.Payload, keys)
+		if err != nil {
+			pl = c25Err(err)
+		} else {
+			pl = Hex(plain)
+		}
+	}
+	out := fmt.Sprintf("ok pl=%s mk=%s enc=%s", pl, Hex([]byte(got.MsgKey)), Hex(got.Payload))
+	if tr != nil && sealed {
+		out += fmt.Sprintf(" ein=%s eout=%s", Hex(tr.EncIn), Hex(tr.EncOut))
+	}
+	return out
 }
